@@ -85,7 +85,7 @@ def alt_values(V):
             it = items[0]
             if it["v"] == "pair":
                 out.append(("pair-key-renamed", {**V, "items": [{**it, "key": it["key"] + "X"}] + items[1:]}))
-                for lb, nv in alt_values(it["value"])[:2]:
+                for lb, nv in [x for x in alt_values(it["value"]) if x[1]["v"] != "list"][:2]:  # (the renderers write atoms as pair values)
                     out.append(("pair-" + lb, {**V, "items": [{**it, "value": nv}] + items[1:]}))
             elif it["v"] != "list":
                 for lb, nv in alt_values(it)[:2]:
@@ -244,7 +244,7 @@ def check(doc, seeds, with_files, root, only=None):
             fails["C15:unlisted:unsealed-not-no-seal"] = f"document without seal reports {status_of(ctext)}"
         # ---- cosmetic respellings of the sealed text
         for s in seeds:
-            lt, info = docprop.render_case(doc, {"k": "len", "seed": s, "level": 0.6})
+            lt, info = docprop.render_case(doc, {"k": "len", "seed": s, "level": 0.6, "deny": ["zone_fence_at_key_column"]})  # (only the cosmetic rewrites C03 lists)
             lsealed = with_seal(lt, seal_block)
             stl = status_of(lsealed, lenient=True)
             if stl is None:
